@@ -82,6 +82,8 @@ enum Scenario {
     RestartWithKey,
     /// like RestartWithKey, but the stored key document has no incarnationId while the status document carries keyIncarnationId
     RestartWithKeyNoIncarnation,
+    /// like RestartWithKey, but the host writes its key ids with upper-case hex digits
+    RestartWithKeyUpperCaseGuid,
     RotationNoGuid,   // host names no key while an old key file exists
     RotationOtherGuid, // host names a key the guest never had
     LocalKeyTruncated,
@@ -105,6 +107,8 @@ struct HostState {
     initial_latched: Option<usize>,
     /// which of the slot's listeners the child of the current run talks to
     listener: usize,
+    /// the host writes key ids in upper case
+    upper: bool,
     /// keyIncarnationId of the status document (an optional field)
     status_incarnation: Option<u32>,
 }
@@ -159,7 +163,7 @@ fn start_host(port: u16, listener: usize, st: Arc<Mutex<HostState>>) -> MockHost
             }
             s.acquires += 1;
             let i = s.issued.len();
-            let (g, k) = (guid_of(s.tag, i), secret_of(s.tag, i));
+            let (g, k) = (if s.upper { guid_of(s.tag, i).to_uppercase() } else { guid_of(s.tag, i) }, secret_of(s.tag, i));
             s.issued.push((g.clone(), k.clone()));
             Action::Reply(vec![simple_response(200, &[("Content-Type", "application/json")], key_json(&g, &k).to_string().as_bytes())])
         } else if t.ends_with("/key-attestation") {
@@ -272,6 +276,13 @@ fn prepare(slot: &Slot, sc: Scenario, fault: Fault, tag: u64) {
             doc.as_object_mut().unwrap().remove("incarnationId");
             write_key(&slot.key_dir, &s.issued[i].0, &s.issued[i].1, Some(&serde_json::to_string_pretty(&doc).unwrap()));
         }
+        Scenario::RestartWithKeyUpperCaseGuid => {
+            s.upper = true;
+            let i = s.issued.len();
+            s.issued.push((guid_of(tag, i).to_uppercase(), secret_of(tag, i)));
+            s.latched = Some(i);
+            write_key(&slot.key_dir, &s.issued[i].0, &s.issued[i].1, None);
+        }
         Scenario::RotationNoGuid => {
             let i = mk(&mut s);
             write_key(&slot.key_dir, &s.issued[i].0, &s.issued[i].1, None);
@@ -306,14 +317,20 @@ fn prepare(slot: &Slot, sc: Scenario, fault: Fault, tag: u64) {
 const SYSCALLS: &str = "openat,open,creat,mkdir,mkdirat,chmod,fchmod,fchmodat,chown,fchown,fchownat,lchown,rename,renameat,renameat2,unlink,unlinkat,write,writev,pwrite64,fsync,fdatasync,ftruncate,connect,sendto,sendmsg,close";
 
 fn run_child(slot: &Slot, kill_at: Option<(&str, u64)>, trace_to: Option<&str>) -> (Option<i32>, bool) {
+    run_child_inj(slot, kill_at.map(|(n, k)| format!("{n}:signal=SIGKILL:when={k}")), trace_to)
+}
+
+/// `inject`: a strace fault-injection spec (`<syscall>:signal=SIGKILL:when=<k>` or `<syscall>:error=ENOSPC:when=<k>`)
+fn run_child_inj(slot: &Slot, inject: Option<String>, trace_to: Option<&str>) -> (Option<i32>, bool) {
+    let kill_at = inject;
     let exe = std::env::current_exe().unwrap();
     let mut cmd;
     if kill_at.is_some() || trace_to.is_some() {
         cmd = std::process::Command::new("strace");
         cmd.arg("-f").arg("-qq").arg("-e").arg(format!("trace={SYSCALLS}"));
-        if let Some((name, k)) = kill_at {
+        if let Some(spec) = &kill_at {
             // strace counts invocations per syscall: the k-th invocation of this one syscall is killed on entry
-            cmd.arg("-e").arg(format!("inject={name}:signal=SIGKILL:when={k}"));
+            cmd.arg("-e").arg(format!("inject={spec}"));
         }
         cmd.arg("-o").arg(trace_to.unwrap_or("/dev/null"));
         cmd.arg(exe);
@@ -439,7 +456,7 @@ fn main() {
         })
         .collect();
 
-    let scenarios: Vec<Scenario> = vec![Scenario::FreshLatch, Scenario::RestartWithKey, Scenario::RestartWithKeyNoIncarnation, Scenario::RotationNoGuid, Scenario::RotationOtherGuid, Scenario::LocalKeyTruncated, Scenario::LocalKeyEmpty];
+    let scenarios: Vec<Scenario> = vec![Scenario::FreshLatch, Scenario::RestartWithKey, Scenario::RestartWithKeyNoIncarnation, Scenario::RestartWithKeyUpperCaseGuid, Scenario::RotationNoGuid, Scenario::RotationOtherGuid, Scenario::LocalKeyTruncated, Scenario::LocalKeyEmpty];
     let faults: Vec<Fault> = if thorough {
         vec![Fault::None, Fault::Status500, Fault::StatusMalformed, Fault::Acquire500, Fault::AcquireMalformed, Fault::Attest500, Fault::AttestLatchThenReset, Fault::AttestResetBeforeLatch]
     } else {
@@ -478,7 +495,7 @@ fn main() {
             if code != Some(0) {
                 res.violation(&format!("no-recovery-without-crash:{:?}:{:?}", sc, f), &format!("without any crash the agent did not reach an accepted signed request (exit {:?}); host: acquires {} attests {} rejected {}", code, slot.st.lock().unwrap().acquires, slot.st.lock().unwrap().attests, slot.st.lock().unwrap().rejected_signed), case.clone());
             }
-            if matches!(sc, Scenario::RestartWithKey | Scenario::RestartWithKeyNoIncarnation) && slot.st.lock().unwrap().acquires != 0 {
+            if matches!(sc, Scenario::RestartWithKey | Scenario::RestartWithKeyNoIncarnation | Scenario::RestartWithKeyUpperCaseGuid) && slot.st.lock().unwrap().acquires != 0 {
                 res.violation(&format!("latched-key-not-reused:{:?}:{:?}:no-kill", sc, f), &format!("the agent started with the host's latched key complete in its store and requested a new key all the same ({} acquisitions)", slot.st.lock().unwrap().acquires), case.clone());
             }
             for (sig, what) in inspect_store(slot) {
@@ -630,6 +647,69 @@ fn main() {
         }
         round_jobs = next_jobs;
     }
+    // phase 3: storage faults instead of kills. One file-system call of the window fails once with ENOSPC and the agent
+    // keeps running (its next poll comes at once on the paused clock): the host must still never see an attest for a
+    // key that is not complete in the store, no torn key file, and afterwards a fresh process authenticates
+    let fs_calls = ["openat", "open", "creat", "rename", "renameat", "renameat2", "mkdir", "mkdirat", "chmod", "fchmod", "fchmodat", "chown", "fchown", "fchownat", "fsync", "fdatasync", "ftruncate"];
+    let mut ejobs: Vec<(Scenario, Fault, String, u64)> = Vec::new();
+    for (sc, f, first, _last, calls) in &windows {
+        if *f != Fault::None && !thorough {
+            continue;
+        }
+        let mut per: BTreeMap<String, Vec<usize>> = BTreeMap::new();
+        for (pos, c) in calls.iter().enumerate() {
+            let name = c.trim_start_matches(['~', '?']).split('(').next().unwrap_or("").to_string();
+            per.entry(name).or_default().push(pos + 1);
+        }
+        for (name, positions) in &per {
+            if !fs_calls.contains(&name.as_str()) {
+                continue;
+            }
+            for (j, pos) in positions.iter().enumerate() {
+                if (*pos as u64) >= (*first).max(1) {
+                    ejobs.push((*sc, *f, name.clone(), j as u64 + 1));
+                }
+            }
+        }
+    }
+    let storage_fault_runs = ejobs.len() as u64;
+    {
+        let jobs = Arc::new(ejobs);
+        let next = Arc::new(std::sync::atomic::AtomicUsize::new(0));
+        let mut hs = Vec::new();
+        for (si, slot) in slots.iter().enumerate() {
+            let (slot, jobs, next, out) = (slot.clone(), jobs.clone(), next.clone(), out.clone());
+            hs.push(std::thread::spawn(move || loop {
+                let j = next.fetch_add(1, std::sync::atomic::Ordering::SeqCst);
+                if j >= jobs.len() {
+                    break;
+                }
+                let (sc, f, ref kname, k) = jobs[j];
+                let tag = 900_000_000 + j as u64 * 16 + si as u64;
+                prepare(&slot, sc, f, tag);
+                let case = json!({"scenario": format!("{:?}", sc), "host_fault": format!("{:?}", f), "storage_fault_at": format!("{kname}#{k} fails with ENOSPC")});
+                let _ = run_child_inj(&slot, Some(format!("{kname}:error=ENOSPC:when={k}")), None);
+                for (sig, what) in inspect_store(&slot) {
+                    out.lock().unwrap().push((format!("{sig}:{:?}:{:?}:storage-fault", sc, f), format!("after {kname}#{k} failed with ENOSPC: {what}"), case.clone()));
+                }
+                slot.st.lock().unwrap().fault = None;
+                let accepted_before = slot.st.lock().unwrap().accepted_signed;
+                let (code2, _) = run_child(&slot, None, None);
+                let s = slot.st.lock().unwrap();
+                if code2 != Some(0) || s.accepted_signed == accepted_before {
+                    out.lock().unwrap().push((format!("no-recovery-after-storage-fault:{:?}:{:?}", sc, f), format!("after {kname}#{k} failed with ENOSPC a fresh agent on the same key store did not reach an accepted signed request (exit {:?})", code2), case.clone()));
+                }
+                for p in s.problems.clone() {
+                    out.lock().unwrap().push((format!("host-protocol:{}:{:?}:{:?}:storage-fault", p.split(':').next().unwrap_or("?"), sc, f), p, case.clone()));
+                }
+            }));
+        }
+        for h in hs {
+            h.join().expect("worker panicked");
+        }
+    }
+    res.cov("storage_fault_runs", storage_fault_runs);
+    evals += storage_fault_runs * 2;
     res.cov("retarget_rounds", rounds);
     for (sig, what, case) in out.lock().unwrap().drain(..) {
         res.violation(&sig, &what, case);
@@ -665,7 +745,7 @@ fn main() {
         res.cov("exhaustive", hit == total);
     }
     res.cov("window_syscalls_per_combination", json!(windows.iter().map(|w| json!({"scenario": format!("{:?}", w.0), "fault": format!("{:?}", w.1), "first": w.2, "last": w.3})).collect::<Vec<_>>()));
-    res.cov("rule", format!("for each of {} (scenario, host fault) combinations: the fault-free run is traced twice with strace (syscalls {SYSCALLS}); then one run per kill point = every invocation (by syscall name and per-syscall index, as strace counts) from the first connect to the host up to process exit (+1..3), killed with SIGKILL on entry; after each kill: no torn file under a final key name, the host's latched key is complete in the store, the mock host never saw an attest for a key that was not complete on disk; then a fresh process on the same store must reach an accepted signed request, without a new acquisition when the latched key was in the store; distinct = kill points at which the process was actually killed", combos.len()));
+    res.cov("rule", format!("for each of {} (scenario, host fault) combinations: the fault-free run is traced twice with strace (syscalls {SYSCALLS}); then one run per kill point = every invocation (by syscall name and per-syscall index, as strace counts) from the first connect to the host up to process exit (+1..3), killed with SIGKILL on entry; after each kill: no torn file under a final key name, the host's latched key is complete in the store, the mock host never saw an attest for a key that was not complete on disk; then a fresh process on the same store must reach an accepted signed request, without a new acquisition when the latched key was in the store; then (storage faults) one run per file-system call of the window in which that call fails once with ENOSPC and the agent keeps running, with the same oracles; distinct = kill points at which the process was actually killed", combos.len()));
     res.sample(json!({"scenario": "FreshLatch", "host_fault": "None", "window": windows.first().map(|w| w.4.iter().skip(w.2.saturating_sub(1) as usize).take(12).cloned().collect::<Vec<_>>())}));
     res.assume("process death = SIGKILL on syscall entry; power loss (page cache, metadata ordering) is not in the statement");
     res.assume("single-threaded subject (current-thread runtime, paused clock): the syscall sequence of the window is deterministic (compared between two fault-free runs)");
